@@ -721,3 +721,8 @@ PROOF_MODULES = PROOF_MODULES + ['Compute.Lemmas.LogRounding', 'Compute.Props.Ro
 REQUIRED_THEOREMS = REQUIRED_THEOREMS + ['Cv.Rounding3.softmax_sum_error', 'Cv.Rounding3.softmax_entry_near', 'Cv.Rounding3.logistic_error', 'Cv.Rounding3.logistic_range', 'Cv.Rounding3.f64_softmax_note', 'Cv.Rounding3.f64_logistic_note']
 NOT_PROVED = [x for x in NOT_PROVED if not any(k in str(x) for k in ('floating-point rounding of the transforms',))]
 NOT_PROVED = NOT_PROVED + ['rounding of logit and Box-Cox (oracle only); for softmax and logistic the float-level claims ARE proved in the standard model with libm exp/ln of relative error <= u_f (Props/Rounding3): every computed softmax entry > 0 and |sum - 1| <= gamma_(n+1), entries within an explicit factor of the exact ones, logistic in (0,1] with relative error <= gamma_2 + gamma^f_1']
+
+# --- deep theorems (Rounding5: float-level bounds in the standard model, wired by the lead)
+PROOF_MODULES = PROOF_MODULES + [m for m in ['Compute.Lemmas.Rounding5', 'Compute.Props.Rounding5'] if m not in PROOF_MODULES]
+REQUIRED_THEOREMS = REQUIRED_THEOREMS + ['Cv.Rounding5.logit_error', 'Cv.Rounding5.boxcox_zero_error', 'Cv.Rounding5.boxcox_error', 'Cv.Rounding5.boxcoxShifted_eq']
+NOT_PROVED = [('all float-level claims are proved in the standard model with libm exp/ln/pow of relative error <= u_f: softmax/logistic (Props/Rounding3); logit within u_f |logit p| + (1+u_f) gamma_2 for 0 < p < 1, Box-Cox within gamma_2 |bc| + (1+gamma_2) u_f x^lambda/|lambda| (lambda = 0: u_f |ln x|), boxcox_shifted = boxcox at the computed x+alpha (Props/Rounding5); the endpoints p = 0, 1 (infinite results) are oracle only' if str(x).startswith('rounding of logit and Box-Cox') else x) for x in NOT_PROVED]
